@@ -202,6 +202,14 @@ func (r *Rec) WantCell(cell string) bool {
 	return true
 }
 
+// ReplayCell is the enumerated cell being replayed ("" otherwise).
+func (r *Rec) ReplayCell() string {
+	if r.replay != nil {
+		return r.replay.Cell
+	}
+	return ""
+}
+
 // ReplayFailFile is the rapid fail file of the case being replayed ("" otherwise).
 func (r *Rec) ReplayFailFile() string {
 	if r.replay != nil {
@@ -319,7 +327,11 @@ func (r *Rec) replayPath(key string) string {
 	if len(name) > 80 {
 		name = name[:80]
 	}
-	return filepath.Join(verifDir(), "replays", r.ID, fmt.Sprintf("%s-%016x.json", name, hash64(key)))
+	dir := os.Getenv("VERIF_REPLAYS_DIR")
+	if dir == "" {
+		dir = filepath.Join(verifDir(), "replays")
+	}
+	return filepath.Join(dir, r.ID, fmt.Sprintf("%s-%016x.json", name, hash64(key)))
 }
 
 // Report handles one difference found in a deterministic (enumerated) layer.  It returns true when the
